@@ -127,8 +127,12 @@ def oracle(stream, cid, ops, outs):
                 te = term[0]
                 recent = [t for t in rx if te - T < t <= te]
                 if recent:
+                    # the known shape (F9): nothing but the SYN-ACK was received since Connect and the deadline is active_timeout
+                    # after the connect() call rather than after the handshake completed
+                    t0 = next((t for (t, w, q) in calls if w == "connect" and q == i), 0)
+                    cause = "deadline_counted_from_connect_call" if (all(t == tc for t in rx if t <= te) and te >= t0 + T) else "other"
                     fails.append({"oracle": "timeout_sound", "detail": "client %d: Error(Timeout) at %d ms although a frame was received at %d ms (active_timeout %d ms, connected at %d ms)" %
-                                  (i, te // 10**6, max(recent) // 10**6, T // 10**6, tc // 10**6), "signature": {"oracle": "timeout_sound", "side": "client"}})
+                                  (i, te // 10**6, max(recent) // 10**6, T // 10**6, tc // 10**6), "signature": {"oracle": "timeout_sound", "side": "client", "cause": cause}})
             for s in step_times.get(i, []):
                 if s <= tc or (end_active is not None and s >= end_active) or (horizon is not None and s >= horizon):
                     continue
